@@ -5275,6 +5275,9 @@ class Arc(Curve):
             if self.start == self.end and self.sweep == 0:
                 # This is equivalent of omitting the segment
                 return [self.start] * len(positions)
+            if self.sweep == 0:
+                # A zero radius: the arc is the straight line between its end points.
+                return [Point.towards(self.start, self.end, pos) for pos in positions]
 
             start_t = self.get_start_t()
             return [
@@ -5355,11 +5358,12 @@ class Arc(Curve):
         integration, and in that case it's simpler to just do a geometric
         approximation, as for cubic Bézier curves.
         """
-        if self.sweep == 0:
-            return 0
         if self.start == self.end and self.sweep == 0:
             # This is equivalent of omitting the segment
             return 0
+        if self.sweep == 0:
+            # A zero radius: the arc is the straight line between its end points.
+            return Point.distance(self.start, self.end)
         a = self.rx
         b = self.ry
         d = abs(a - b)
